@@ -16,6 +16,11 @@ from .report import Report
 
 VERIF = facts.VERIF
 EVID = os.path.join(VERIF, "evidence")
+EVID_SHOWN = "evidence"
+if os.path.realpath(facts.REPO) != "/repo":
+    # self-tests / seeded runs against a scratch copy never overwrite the evidence of the real tree
+    EVID = os.path.join(facts.WORK, "scratch-evidence", hashlib.sha1(facts.REPO.encode()).hexdigest()[:10])
+    EVID_SHOWN = EVID
 KNOWN = os.path.join(VERIF, "known_findings.json")
 
 
@@ -112,7 +117,7 @@ def main(argv=None):
     os.makedirs(os.path.join(EVID, "replay"), exist_ok=True)
     for v in unlisted:
         h = hashlib.sha1(v.key.encode()).hexdigest()[:12]
-        path = os.path.join("evidence", "replay", "%s-%s.json" % (pid, h))
+        path = os.path.join(EVID_SHOWN, "replay", "%s-%s.json" % (pid, h))
         with open(os.path.join(VERIF, path), "w") as f:
             json.dump(v.to_json(), f, indent=1, default=str)
         if replay_target is None or replay_target == v.key:
